@@ -34,13 +34,13 @@ SEGS = ("0", "1", "a", "ab")
 IDS = (None, "x", "y")
 
 
-def gen(tape):
+def gen(tape, big=False):
     fallback = tape.chance("config", 2, 3, "fallback")
     fb_ss = tape.chance("config", 1, 2, "fallback-startstop")
     ops = []
     used_p, used_i = set(), set()
     in_run, runs = False, 0
-    n = 3 + tape.draw("program", 12, "n-ops")
+    n = 3 + tape.draw("program", 24 if big else 12, "n-ops")
     for _ in range(n):
         k = tape.weighted("program", [(5, "event"), (2, "add_prefix"), (2, "add_id"), (2, "run")], "op")
         if k == "add_prefix":
@@ -85,7 +85,7 @@ def gen(tape):
 
 def run_one(tape, opts):
     out = Outcome()
-    fallback, fb_ss, ops = gen(tape)
+    fallback, fb_ss, ops = gen(tape, big=opts.get("tier") == "thorough")
     world = World()
     fb = TStream(world, "fallback") if fallback else None
     router = StreamResultRouter(fb, do_start_stop_run=fb_ss)
